@@ -147,5 +147,25 @@ PROPS['C14'] = dict(
     budget={'quick': 30, 'thorough': 400},
     trusted=T_LP + ['T4 clock axiom: a time-limit stop consumes at least timeLimit seconds (harness advances a fake clock)', 'T12 datetimes modelled as seconds'],
     assumptions=['Solver.solve glue (status and times stored in the model): bounded stand-in only'])
+PROPS['C11'] = dict(
+    title='Printed statistics and listings describe the printed matching',
+    functions=[MOD + f for f in ('_get_max_rank', '_get_cost', '_get_cost_sq', '_get_degree', '_get_profile', '_get_lec_abs_diffs', '_get_max_lec_abs_diff',
+                                 '_get_sum_lec_abs_diff', '_get_matching_string', '_get_matching_size', '_get_pair_assignments', 'get_results')],
+    lemmas=['SUM/ext', 'LISTSET/empty-append', 'LISTSET/iterate'], level='other',
+    level_text='statistic helpers verified against the measures of the property statement for every list of matched pairs (sums, counts per rank / lecturer, maxima with witnesses; lecturer cost 0 when a pair has no lecturer rank); the matching line has one blank-separated entry per student = project of that student\'s matched pair or 0; Model.get_results prints size / cost / degree equal to the helper results for the list read back from the solution, in both formats.  NOT proved deductively (bounded stand-in): the exact text layout of the profile string and of the three long-format listings (_get_profile_string and _get_detailed_* are modelled as pure text functions)',
+    harness=True, bound='<= 4 students x <= 3 projects x <= 3 lecturers, 0-2 criteria, short and long format',
+    budget={'quick': 20, 'thorough': 300},
+    trusted=['T3 reported values are integral', 'T5/T6 str(int) name model'],
+    assumptions=['layout of profile string and long-format listings: bounded stand-in only'])
+PROPS['C10'] = dict(
+    title='The solver reads an instance file as the instance the file denotes',
+    functions=[FIO + '_get_simple_pref_list_and_ranks', FIO + '_create_pairs_row', FIO + '_create_student_ranks', FIO + '_set_lecturers', FIO + '_set_lecturer_ranks',
+               MOD + 'set_project_lists', MOD + 'set_lecturer_lists', MOD + 'set_rank_lists', MOD + '_get_max_rank'],
+    lemmas=['C13/writer-shape', 'LISTSET/empty-append', 'LISTSET/iterate'], level='other',
+    level_text='proved for all list lengths / instance sizes: the tie-aware tokeniser (values in order, dense ranks following the tie groups), the construction of a student\'s row of fresh Pair objects, the per-lecturer rank dictionary, the assignment of lecturers and lecturer ranks to every pair, and the derived project / lecturer / rank lists (each holds exactly the pairs of that project / lecturer / rank; one rank list per rank up to the maximum).  NOT proved deductively (bounded stand-in): _import_from_file itself (the four sections delimited by the header counts, the 2-agent embedding, ignoring the trailing block) and the character-level lexer',
+    harness=True, bound='<= 13 agents per side (two-digit numbers inside tie groups), 2-/3-agent, +-twopl, +-trailing block, extra blanks',
+    budget={'quick': 20, 'thorough': 300},
+    trusted=[T['T6'], T['T7'], 'T8 a file reads back as its lines in order'],
+    assumptions=['_import_from_file section logic and 2-agent embedding: bounded stand-in only', 'token strings abstracted through the shape table'])
 NOT_APPLICABLE = {}
 NOTES = 'see DESIGN.md; ./check Cxx --tier quick|thorough; exit 0 held / 1 VIOLATION / 2 undecided / 3 checker error'
